@@ -207,6 +207,9 @@ pub(crate) struct EndpointInner {
     sock: Arc<Socket>,
     // empty when shutdown
     actor_task: Mutex<Option<AbortOnDropHandle<()>>>,
+    /// Held for the duration of [`Self::close`], so that concurrent callers wait for a
+    /// close that is in progress instead of returning before the endpoint is closed.
+    close_lock: tokio::sync::Mutex<()>,
     /// Channel to send to the internal actor.
     actor_sender: mpsc::Sender<ActorMessage>,
     // noq endpoint
@@ -1119,6 +1122,7 @@ impl EndpointInner {
             sock,
             actor_sender,
             actor_task,
+            close_lock: Default::default(),
             endpoint,
             runtime,
             static_config,
@@ -1139,6 +1143,9 @@ impl EndpointInner {
     /// [`Poll::Pending`]: std::task::Poll::Pending
     #[instrument(skip_all, parent = self.sock.span.clone())]
     pub(crate) async fn close(&self) {
+        // Wait for a concurrent close to finish: when this returns the endpoint is closed,
+        // also for callers other than the first (unless the closing call was cancelled).
+        let _close_guard = self.close_lock.lock().await;
         if self.sock.is_closed() || self.sock.is_closing() {
             return;
         }
